@@ -310,4 +310,79 @@ theorem offerRepLens_thr {P : NormalParams} {d : Array UInt8} {dict p : Nat} {c0
       rw [e1, symOf_rep E.P hreps E.d _ rep (n + 2) (by omega) (by omega), hoc]
       exact cand_rep E.d dict (p + cur) cc rep (n + 2) Lm hr (by omega) (by omega) hLm he
 
+theorem Thr.mono_lo {P : NormalParams} {d : Array UInt8} {dict p : Nat} {c0 : Coder} {avail0 cur b : Nat} {cc : Coder}
+    {lo lo' : Nat} {a : OA} (h : Thr P d dict p c0 avail0 cur b cc lo a) (hl : lo' ≤ lo) :
+    Thr P d dict p c0 avail0 cur b cc lo' a :=
+  ⟨h.1, h.2.1, by have := h.2.2.1; omega, h.2.2.2⟩
+
+/-- `get_match_len_fast_reject`: 0, or a real repetition of at least 2 and at most `limit` bytes (`2 ≤ limit`) -/
+theorem getMatchLenFastReject_spec (d : Array UInt8) (q dist limit : Nat) (hl : 2 ≤ limit) :
+    getMatchLenFastReject d q dist limit = 0 ∨
+      (2 ≤ getMatchLenFastReject d q dist limit ∧ getMatchLenFastReject d q dist limit ≤ limit ∧
+        Eqs d q (dist + 1) (getMatchLenFastReject d q dist limit)) := by
+  unfold getMatchLenFastReject
+  split
+  · next hb =>
+    right
+    have he2 : Eqs d q (dist + 1) 2 := by
+      intro i hi
+      rcases i with _ | _ | i
+      · simpa only [Nat.add_zero] using hb.1
+      · exact hb.2
+      · omega
+    have := extendMatch_spec d q (dist + 1) limit 2 hl he2
+    exact ⟨this.1, this.2.1, this.2.2⟩
+  · exact Or.inl rfl
+
+theorem longRepOne_thr {P : NormalParams} {d : Array UInt8} {dict p : Nat} {c0 : Coder} {avail0 cur b : Nat}
+    {cc : Coder} {lo : Nat} {a : OA}
+    (E : Env) (hEP : E.P = P) (hEd : E.d = d) (hpos : PosOk P d p avail0 cur E.nice) (hav2 : 2 ≤ avail0 - cur)
+    (h : Thr P d dict p c0 avail0 cur b cc lo a) (anyRep startLen rep : Nat) (hr : rep ≤ 3) :
+    Thr P d dict p c0 avail0 cur b cc lo (longRepOne E cur (p + cur) (avail0 - cur) anyRep a startLen rep).1 := by
+  obtain ⟨⟨hmin, hmax, hreps, hopts2, hinf⟩, hn2, hn273, hav0, hav1, hclt⟩ := hpos
+  subst hEP hEd
+  unfold longRepOne
+  simp only [hmin]
+  rw [h.2.1]
+  have hspec := getMatchLenFastReject_spec E.d (p + cur) (cc.rep rep) (min (avail0 - cur) E.nice) (by omega)
+  generalize getMatchLenFastReject E.d (p + cur) (cc.rep rep) (min (avail0 - cur) E.nice) = len at hspec ⊢
+  split
+  · exact h
+  · next hl2 =>
+    rcases hspec with h0 | ⟨h2, hlim, heq⟩
+    · omega
+    · have hposok : PosOk E.P E.d p avail0 cur E.nice := ⟨⟨hmin, hmax, hreps, hopts2, hinf⟩, hn2, hn273, hav0, hav1, hclt⟩
+      have h1 := h.extend hav1 (cur + len) (by omega)
+      have h2' := offerRepLens_thr E rfl rfl hposok (E.posState (p + cur))
+        (longRepPrice E.ps anyRep rep cc.state (E.posState (p + cur))) rep len hr (by omega) heq (len + 1 - 2) _ h1
+        (by omega) (by have := h1.2.2.1; omega)
+      have hsym : symOf E.P E.d (p + cur) (rep : Int) len = .rep rep len := symOf_rep E.P hreps E.d _ rep len (by omega) h2
+      have h3 := offerComposite_thr E rfl rfl hposok h2' len (cc.rep rep)
+        (longRepPrice E.ps anyRep rep cc.state (E.posState (p + cur)) + E.pt.repLen.get len (E.posState (p + cur)))
+        (stLongRep cc.state) (rep : Int) (by omega) h2 (by omega)
+        (by rw [hsym]; exact cand_rep E.d dict (p + cur) cc rep len len hr h2 (Nat.le_refl _) (by omega) heq)
+        (by rw [hsym]; exact rep0_after_rep cc rep len)
+      exact h3.mono_lo (by omega)
+
+theorem calcLongRepPrices_thr {P : NormalParams} {d : Array UInt8} {dict p : Nat} {c0 : Coder} {avail0 cur b : Nat}
+    {cc : Coder} {lo : Nat} {a : OA}
+    (E : Env) (hEP : E.P = P) (hEd : E.d = d) (hpos : PosOk P d p avail0 cur E.nice) (hav2 : 2 ≤ avail0 - cur)
+    (h : Thr P d dict p c0 avail0 cur b cc lo a) (anyRep : Nat) :
+    Thr P d dict p c0 avail0 cur b cc lo (calcLongRepPrices E a cur (p + cur) (avail0 - cur) anyRep).1 := by
+  have hreps : E.P.reps = 4 := by rw [hEP]; exact hpos.pok.2.2.1
+  unfold calcLongRepPrices
+  rw [hreps]
+  have hfold : ∀ (l : List Nat) (a : OA) (sl : Nat), (∀ r ∈ l, r ≤ 3) → Thr P d dict p c0 avail0 cur b cc lo a →
+      Thr P d dict p c0 avail0 cur b cc lo
+        (l.foldl (fun r rep => longRepOne E cur (p + cur) (avail0 - cur) anyRep r.1 r.2 rep) (a, sl)).1 := by
+    intro l
+    induction l with
+    | nil => intro a sl _ h; exact h
+    | cons x xs ih =>
+      intro a sl hl h
+      simp only [List.foldl_cons]
+      exact ih _ _ (fun r hr => hl r (List.mem_cons_of_mem _ hr))
+        (longRepOne_thr E hEP hEd hpos hav2 h anyRep sl x (hl x (List.mem_cons_self ..)))
+  exact hfold _ a _ (fun r hr => by have := List.mem_range.mp hr; omega) h
+
 end LzmaVerif.EncNormal
